@@ -18,8 +18,9 @@ SPEC = dict(
                "exploration runs in the default, simd and portable-popcount builds.",
     level_note="Bounds: <= 4 words exhaustively over W8; families up to 129 words (8256 bits) and gaps up to 33 zero words; the 2^32-bit "
                "L0 superblock of the rank directory is out of reach. Oracle: prefix sums / position lists from one bit-at-a-time scan "
-               "(self-tested against core's count_ones of the masked words). AVX-512 VPOPCNTDQ is absent on this host, so the simd "
-               "build runs its scalar-POPCNT popcount_words; block_popcount runs its AVX2 kernel.",
+               "(self-tested against core's count_ones of the masked words). Dispatch paths that ran on this host are listed in the "
+               "evidence (simd build: AVX-512 VPOPCNTDQ popcount_words where the CPU has it; scan_select: AVX2 block popcount; "
+               "select_in_word: whatever the dispatcher picks - each select path is driven separately by C02).",
     assumptions=["words outside W8 only appear as filler/special/carrier patterns of the families",
                  "get(i) for i >= len is documented to panic; that is what is checked",
                  "vectors longer than 8256 bits and the L0 (2^32 bits) rank level are not explored"],
